@@ -52,7 +52,8 @@ def read_tree(root: Path):
     return snapshot(root)
 
 def run_job(job, d: Path, run, M):
-    proj = d / "proj"; proj.mkdir(parents=True)
+    under = job.get("proj_under") or "proj"            # where the target directory sits below the scratch directory (e.g. "build/app": the path the user types contains names that file patterns mention)
+    proj = d / under; proj.mkdir(parents=True)
     materialise(proj, job.get("files", {}))
     for rel, spec in (job.get("outside") or {}).items():
         materialise(d, {rel: spec})
@@ -64,9 +65,9 @@ def run_job(job, d: Path, run, M):
         return a.replace("{proj}", str(proj)).replace("{out}", str(outp)).replace("{res}", str(resdir)).replace("{dir}", str(d))
     # how the user spells the target directory (only the positional "{proj}" argument is respelled; patterns keep the absolute path)
     spelling = job.get("target", "abs"); cwd0 = os.getcwd(); target = str(proj)
-    if spelling == "rel": os.chdir(d); target = "proj"
+    if spelling == "rel": os.chdir(d); target = under
     elif spelling == "dot": os.chdir(proj); target = "."
-    elif spelling == "dotdot": os.chdir(proj); target = "../proj"
+    elif spelling == "dotdot": os.chdir(proj); target = "../" + proj.name
     elif spelling == "symlink": os.symlink(proj, d / "link"); target = str(d / "link")
     elif spelling == "trailing-slash": target = str(proj) + "/"
     job["_target"] = target
@@ -123,7 +124,7 @@ def _run_repeats(job, d, run, M, proj, outp, argv):
              "trace": tr.events if job.get("want_trace", True) else None, "counters": tr.counters, "before_tree": before_tree, "proj": str(proj)}
         if job.get("want_stat"): o["before_stat"] = before_stat; o["stat"] = stat_tree(proj)
         if job.get("outside"):
-            o["outside_tree"] = {k: v for k, v in read_tree(d).items() if not k.startswith(("proj/", "res/"))}
+            o["outside_tree"] = {k: v for k, v in read_tree(d).items() if not k.startswith((job.get("proj_under") or "proj") + "/") and not k.startswith("res/")}
         outcomes.append(o)
     r = {"status": "ok", "runs": outcomes}
     return r
